@@ -37,8 +37,9 @@ fn gen_hostile(rng: &mut Rng) -> RS {
     out
 }
 
-/// the result set for the model, functions in the iteration order of the `FxHashMap` the writers walk
-/// (the order of the `functions` array and of the ade method records is that order)
+/// the result set for the model, functions in the iteration order of the HARNESS's `FxHashMap` (an
+/// arbitrary order: since 73c9152 the writers list the functions by name, and so does the model –
+/// `Writers.FnOrder` sorts whatever order it is given; nothing is read off the real report)
 fn show_set_iter_order(rs: &RS) -> String {
     rs.iter()
         .map(|(a, r, c)| {
@@ -168,7 +169,7 @@ pub fn run(rep: &mut Report) {
         rep.case(&format!("jsonbytes {}", show_set(&rs)), hostile || rs.len() >= 3);
         rep.count(if hostile { "jsonbytes.hostile_names" } else { "jsonbytes.generated_names" });
         let set = show_set_iter_order(&rs);
-        let mut add = |rep: &mut Report, id: String, op: &str, req: String, path: &Path, multi: bool| {
+        let mut add = |rep: &mut Report, set: &str, id: String, op: &str, req: String, path: &Path, multi: bool| {
             let bytes = std::fs::read(path).unwrap_or_default();
             let text = String::from_utf8_lossy(&bytes).to_string();
             let serde_canon = if multi {
@@ -178,7 +179,7 @@ pub fn run(rep: &mut Report) {
             };
             rep.count(&format!("jsonbytes.doc.{}", op));
             manifest.push_str(&format!("{} {}\n", id, path.display()));
-            pend.push(Pending { id, op: op.to_string(), req, real_hex: hex(&bytes), serde_canon, case: json!({"op": op, "results": set.clone()}) });
+            pend.push(Pending { id, op: op.to_string(), req, real_hex: hex(&bytes), serde_canon, case: json!({"op": op, "results": set}) });
         };
         // covdir
         {
@@ -187,7 +188,7 @@ pub fn run(rep: &mut Report) {
                 let v: Value = serde_json::from_str(&std::fs::read_to_string(&p).unwrap_or_default()).unwrap_or(Value::Null);
                 let mut fills = vec![];
                 covdir_fills(&v, &mut vec![], &mut fills);
-                add(rep, format!("covdir{}", i), "c03.json.covdir", req_line(&["c03.json.covdir", &set, &fills.join(" ")]), &p, false);
+                add(rep, &set, format!("covdir{}", i), "c03.json.covdir", req_line(&["c03.json.covdir", &set, &fills.join(" ")]), &p, false);
             } else {
                 rep.count("jsonbytes.covdir.panic");
             }
@@ -199,7 +200,7 @@ pub fn run(rep: &mut Report) {
             if r.is_ok() {
                 let v: Value = serde_json::from_str(&std::fs::read_to_string(&p).unwrap_or_default()).unwrap_or(Value::Null);
                 let digests: Vec<String> = v["source_files"].as_array().map(|a| a.iter().map(|f| format!("G{}", hex(f["source_digest"].as_str().unwrap_or("").as_bytes()))).collect()).unwrap_or_default();
-                add(rep, format!("cov{}{}", i, if plus { "p" } else { "" }), "c03.json.coveralls", req_line(&["c03.json.coveralls", if plus { "1" } else { "0" }, &set, &digests.join(" ")]), &p, false);
+                add(rep, &set, format!("cov{}{}", i, if plus { "p" } else { "" }), "c03.json.coveralls", req_line(&["c03.json.coveralls", if plus { "1" } else { "0" }, &set, &digests.join(" ")]), &p, false);
             }
         }
         // ade
@@ -207,7 +208,33 @@ pub fn run(rep: &mut Report) {
             let p = out.join(format!("a{}.json", i));
             if guarded(|| output_activedata_etl(&rs, Some(&p), false)).is_ok() {
                 let toks = ade_tokens(&std::fs::read_to_string(&p).unwrap_or_default());
-                add(rep, format!("ade{}", i), "c03.json.ade", req_line(&["c03.json.ade", &set, &toks.join(" ")]), &p, true);
+                add(rep, &set, format!("ade{}", i), "c03.json.ade", req_line(&["c03.json.ade", &set, &toks.join(" ")]), &p, true);
+            }
+        }
+        // demangling ON (the CLI default), with names that really demangle: coveralls+ and ade
+        if i % 2 == 1 {
+            let mut rs2 = rs.clone();
+            crate::dm::sprinkle(&mut rng, &mut rs2);
+            let mut dm = crate::dm::Dm::new(&rep.workdir);
+            match dm.resolve_set(&rs2) {
+                Err(e) => rep.fail("oracle", None, e, json!({"op": "c03.json.coveralls", "demangle": true, "results": show_set(&rs2)})),
+                Ok(()) => {
+                    let set2 = show_set_iter_order(&rs2);
+                    let d = dm.arg(true, &rs2);
+                    rep.count(if rs2.iter().any(|r| dm.collides(true, &r.2)) { "jsonbytes.demangle_on.two_functions_print_alike" } else { "jsonbytes.demangle_on.injective" });
+                    let p = out.join(format!("c{}dm.json", i));
+                    let r = without_git(|| guarded(|| output_coveralls(&rs2, Some("tok"), Some("svc"), "1", Some("2"), "3", None, "sha", true, Some(&p), "main", false, true)));
+                    if r.is_ok() {
+                        let v: Value = serde_json::from_str(&std::fs::read_to_string(&p).unwrap_or_default()).unwrap_or(Value::Null);
+                        let digests: Vec<String> = v["source_files"].as_array().map(|a| a.iter().map(|f| format!("G{}", hex(f["source_digest"].as_str().unwrap_or("").as_bytes()))).collect()).unwrap_or_default();
+                        add(rep, &set2, format!("cov{}dm", i), "c03.json.coveralls", req_line(&["c03.json.coveralls", "1", &d, &set2, &digests.join(" ")]), &p, false);
+                    }
+                    let p = out.join(format!("a{}dm.json", i));
+                    if guarded(|| output_activedata_etl(&rs2, Some(&p), true)).is_ok() {
+                        let toks = ade_tokens(&std::fs::read_to_string(&p).unwrap_or_default());
+                        add(rep, &set2, format!("ade{}dm", i), "c03.json.ade", req_line(&["c03.json.ade", &d, &set2, &toks.join(" ")]), &p, true);
+                    }
+                }
             }
         }
     }
